@@ -5,6 +5,8 @@ CONSTANTS
   MaxSubs = 2
   MaxDir = 1
   RuleLists = {{}, {"r1"}, {"r1", "r2"}}
+  Switch = TRUE
+  Odd = TRUE
   Sample = 0
 INVARIANTS
   Exact
